@@ -729,85 +729,117 @@ func ruleL10(c *Ctx, id string) {
 		return nil
 	}
 	for _, fn := range P.RepoFuncs("nfs") {
-		for _, b := range fn.Blocks {
-			for _, in := range b.Instrs {
-				call, ok := in.(*ssa.Call)
-				if !ok {
-					continue
-				}
-				cal := call.Call.StaticCallee()
-				if cal == nil || !(cal == lockIn || (lookupOrd != nil && cal == lookupOrd) || V.Acquirers[cal]) {
-					continue
-				}
-				if !reachableFrom(call, call) {
-					continue // not in a cycle: a nil answer is an error reply, not a retry
-				}
-				// the numbers handed over: integer arguments, and the elements of a slice built here
-				var nums []ssa.Value
-				for _, a := range call.Call.Args {
-					a = stripConv(a)
-					if bt, isB := a.Type().Underlying().(*types.Basic); isB && bt.Info()&types.IsInteger != 0 {
-						nums = append(nums, a)
+		if isPrivateHelper(fn) && len(staticSites[fn]) > 0 && fn != lockIn {
+			// looked at as part of its callers (a helper that holds the locking calls of a retry loop)
+			if fn.Parent() == nil && ownerOf(fn) != fn {
+				continue
+			}
+		}
+		if fn.Parent() != nil {
+			continue
+		}
+		scopes := scopesOf(fn)
+		for si := range scopes {
+			sc := scopes[si]
+			for _, b := range sc.Fn.Blocks {
+				for _, in := range b.Instrs {
+					call, ok := in.(*ssa.Call)
+					if !ok {
+						continue
 					}
-					if _, isS := a.Type().Underlying().(*types.Slice); isS {
-						for src := range bwdSources(a) {
-							for _, r := range refs(src) {
-								if ia, isIA := r.(*ssa.IndexAddr); isIA {
-									for _, r2 := range refs(ia) {
-										if st, isSt := r2.(*ssa.Store); isSt && st.Addr == ssa.Value(ia) {
-											nums = append(nums, stripConv(st.Val))
+					cal := call.Call.StaticCallee()
+					if cal == nil || !(cal == lockIn || (lookupOrd != nil && cal == lookupOrd) || V.Acquirers[cal]) {
+						continue
+					}
+					top := topInstr(scopes, sc, call)
+					if !reachableFrom(top, top) {
+						continue // not in a cycle: a nil answer is an error reply, not a retry
+					}
+					// the numbers handed over: integer arguments, and the elements of a slice built here
+					var nums []ssa.Value
+					isInt := func(v ssa.Value) bool {
+						bt, isB := v.Type().Underlying().(*types.Basic)
+						return isB && bt.Info()&types.IsInteger != 0
+					}
+					for _, a0 := range call.Call.Args {
+						a := sc.S.resolve(stripConv(a0))
+						if isInt(a) {
+							nums = append(nums, a)
+						}
+						if _, isS := a.Type().Underlying().(*types.Slice); isS {
+							for src := range bwdSources(a) {
+								for _, r := range refs(src) {
+									if ia, isIA := r.(*ssa.IndexAddr); isIA {
+										for _, r2 := range refs(ia) {
+											if st, isSt := r2.(*ssa.Store); isSt && st.Addr == ssa.Value(ia) {
+												nums = append(nums, sc.S.resolve(stripConv(st.Val)))
+											}
+										}
+									}
+								}
+								// an array literal sliced ([]T{a, b, c})
+								if sl, isSl := src.(*ssa.Slice); isSl {
+									for _, r := range refs(stripConv(sl.X)) {
+										if ia, isIA := r.(*ssa.IndexAddr); isIA {
+											for _, r2 := range refs(ia) {
+												if st, isSt := r2.(*ssa.Store); isSt && st.Addr == ssa.Value(ia) {
+													nums = append(nums, sc.S.resolve(stripConv(st.Val)))
+												}
+											}
+										}
+									}
+								}
+								// built by a helper from its integer arguments (twoInums(a, b))
+								if hc, isC := src.(*ssa.Call); isC && hc.Call.StaticCallee() != nil && isPrivateHelper(hc.Call.StaticCallee()) {
+									for _, ha := range hc.Call.Args {
+										if isInt(ha) {
+											nums = append(nums, sc.S.resolve(stripConv(ha)))
 										}
 									}
 								}
 							}
-							// built by a helper from its integer arguments (twoInums(a, b))
-							if hc, isC := src.(*ssa.Call); isC && hc.Call.StaticCallee() != nil && isPrivateHelper(hc.Call.StaticCallee()) {
-								for _, ha := range hc.Call.Args {
-									if bt, isB := ha.Type().Underlying().(*types.Basic); isB && bt.Info()&types.IsInteger != 0 {
-										nums = append(nums, stripConv(ha))
-									}
-								}
+						}
+					}
+					callOrd := 0
+					for _, o := range P.CallsIn(sc.Fn, funcIs(cal)) {
+						if o.Pos() < call.Pos() {
+							callOrd++
+						}
+					}
+					seenLk := map[*ssa.Call]bool{}
+					for _, v := range nums {
+						lk := fromLookup(v)
+						if lk == nil || seenLk[lk] {
+							continue
+						}
+						seenLk[lk] = true
+						// which lookup: its ordinal among the lookups of its function, in source order
+						i := 0
+						for _, o := range P.CallsIn(lk.Parent(), funcIs(lookup)) {
+							if o.Pos() < lk.Pos() {
+								i++
 							}
 						}
+						g := guardedUp(scopes, sc, call.Block(), func(sub Subst) func(Cond) (bool, bool) {
+							return func(cd Cond) (bool, bool) {
+								if (cd.Op != token.EQL && cd.Op != token.NEQ) || cd.X == nil || cd.Y == nil {
+									return false, false
+								}
+								x, y := cd.X, cd.Y
+								if k, isk := constInt(stripConv(x)); isk && k == 0 {
+									x, y = y, x
+								}
+								if k, isk := constInt(stripConv(y)); !isk || k != 0 {
+									return false, false
+								}
+								if fromLookup(sub.resolve(stripConv(x))) != lk {
+									return false, false
+								}
+								return true, cd.Op == token.NEQ
+							}
+						})
+						R.Check(g, id, fmt.Sprintf("%s|number of lookup #%d handed to %s#%d is not null", FuncName(fn), i, cal.Name(), callOrd), P.Pos(call.Pos()), "the call is reached only on paths where the looked-up number was compared with NULLINUM and differs", "dominated by the != NULLINUM side", "a name that does not exist gives the null number; locking it fails for ever, and the surrounding loop takes that for 'freed since the lookup' and retries without end - the RPC never returns and keeps a CPU busy")
 					}
-				}
-				callOrd := 0
-				for _, o := range P.CallsIn(fn, funcIs(cal)) {
-					if o.Pos() < call.Pos() {
-						callOrd++
-					}
-				}
-				seenLk := map[*ssa.Call]bool{}
-				for _, v := range nums {
-					lk := fromLookup(v)
-					if lk == nil || seenLk[lk] {
-						continue
-					}
-					seenLk[lk] = true
-					// which lookup: its ordinal among the lookups of the function, in source order
-					i := 0
-					for _, o := range P.CallsIn(fn, funcIs(lookup)) {
-						if o.Pos() < lk.Pos() {
-							i++
-						}
-					}
-					g := guardedBy(fn, call.Block(), func(cd Cond) (bool, bool) {
-						if (cd.Op != token.EQL && cd.Op != token.NEQ) || cd.X == nil || cd.Y == nil {
-							return false, false
-						}
-						x, y := cd.X, cd.Y
-						if k, isk := constInt(stripConv(x)); isk && k == 0 {
-							x, y = y, x
-						}
-						if k, isk := constInt(stripConv(y)); !isk || k != 0 {
-							return false, false
-						}
-						if fromLookup(x) != lk {
-							return false, false
-						}
-						return true, cd.Op == token.NEQ
-					})
-					R.Check(g, id, fmt.Sprintf("%s|number of lookup #%d handed to %s#%d is not null", FuncName(ownerOf(fn)), i, cal.Name(), callOrd), P.Pos(call.Pos()), "the call is reached only on paths where the looked-up number was compared with NULLINUM and differs", "dominated by the != NULLINUM side", "a name that does not exist gives the null number; locking it fails for ever, and the surrounding loop takes that for 'freed since the lookup' and retries without end - the RPC never returns and keeps a CPU busy")
 				}
 			}
 		}
